@@ -7,6 +7,7 @@ import Vibrato.Driver.Tok
 import Vibrato.Driver.Corpus
 import Vibrato.Driver.Rewriter
 import Vibrato.Driver.Image
+import Vibrato.Driver.LexCsv
 
 open Vibrato Vibrato.Driver
 
@@ -23,7 +24,7 @@ def input (rest : List String) : List String := rest.takeWhile (· ≠ "IMPL")
 def stepLine (fx : Fixes) (st : DState) (line : String) : DState × String :=
   match Wire.tokens line with
   | "def" :: rest =>
-    let (obs, d) := Tok.handleDef rest
+    let (obs, d) := Tok.handleDef fx rest
     let name := rest.headD "?"
     let st' := match d with
       | some nd => { st with dicts := nd :: st.dicts.filter (·.1 ≠ nd.1) |>.take 4 }
@@ -38,6 +39,10 @@ def stepLine (fx : Fixes) (st : DState) (line : String) : DState × String :=
     let same := Rewriter.handle ("SAMETRIE" :: inp)
     (st, s!"rewrite {id} MODEL {model} P C17={if spec == impl then "1" else "0"} SAMETRIE={same}")
   | "image" :: id :: rest => (st, s!"image {id} MODEL {Image.handle (input rest)}")
+  | "csv" :: id :: rest =>
+    let inp := input rest
+    let inp := if inp.head? == some "LEX" then inp ++ ["FIXED", if fx.f8 then "1" else "0"] else inp
+    (st, s!"csv {id} MODEL {LexCsv.handle inp}")
   | "corpus" :: id :: rest => (st, s!"corpus {id} MODEL {Corpus.handle (input rest)}")
   | s :: id :: _ => (st, s!"{s} {id} MODEL unknown-stream")
   | _ => (st, "? ? MODEL badline")
